@@ -313,6 +313,8 @@ func encodeChunk(entries [][]byte) []byte {
 	return buf.Bytes()
 }
 
+func bytesReader(b []byte) io.Reader { return bytes.NewReader(b) }
+
 func chunkBytes(ctx context.Context, cr checkpoint.Creator, cm *checkpoint.ChunkMetadata) ([]byte, error) {
 	var buf bytes.Buffer
 	if err := cr.GetCheckpointChunk(ctx, cm, &buf); err != nil {
